@@ -562,6 +562,7 @@ class Engine:
     wall = {"quick": 300, "thorough": 900}
     selftest_n = {"quick": 24, "thorough": 96}
     chunk = 50
+    isolate = True      # every run in a child forked from the pristine engine process (annet keeps process-global caches)
     minimise_budget = {"quick": 600, "thorough": 3000}
     rule = ("one run = one seeded history of the real `annet deploy` on the shipped huawei (CE / non-CE) or cisco (Catalyst / "
             "Nexus) rulebook: 1-3 VLAN lists (trunk allow-pass, hybrid tagged/untagged, vlan batch, vlan pool, stp instance; "
